@@ -12,6 +12,9 @@ Rule ==
   CASE Ev.op = "r1" -> /\ Ev.res = "Ok"
                        /\ Ev.wa = Ev.wb                                              \* R2
                        /\ \A i \in 1..Len(Ev.a) : R1Judged(Ev.a[i], Ev.b[i], Ev.k) => R1OK(Ev.a[i], Ev.b[i], Ev.k)
+    [] Ev.op = "r1x" -> /\ Ev.res = "Ok"
+                        /\ Ev.wa = Ev.wb                                             \* R2 at scales beyond E
+                        /\ \A i \in 1..Len(Ev.a) : R1xOK(Ev.a[i], Ev.b[i], Ev.k, Ev.emax)
     [] Ev.op = "r3" -> /\ Ev.res = "Ok" /\ Ev.wa = Ev.wb
                        /\ Ev.finite => Within(Ev.got, Ev.ref, Tol(Ev.fam))
     \* a call that consumed another number of words follows another construction: not judged (guard, counted by the check)
